@@ -4,6 +4,7 @@
 #include <amc/type_traits.hpp>
 
 #include <cstdio>
+#include <initializer_list>
 #include <cstdlib>
 #include <cstring>
 #include <exception>
@@ -308,6 +309,22 @@ static void withDst(const Label &lb, S sb, S se, T *src, T *dst, Out &o, bool mo
     withDstCopy<T>(lb, sb, se, dst, o);
 }
 
+// construct_at(p, 1, 2) on a type with both T(int, int) and T(std::initializer_list<int>)
+struct ILE {
+  int v;
+  ILE(int a, int b) : v(a * 10 + b) {}
+  ILE(std::initializer_list<int>) : v(-77) {}
+};
+template <class T>
+static bool constructArgs(T *) {
+  return false;
+}
+static bool constructArgs(TCE *dst) {
+  static_assert(sizeof(ILE) == sizeof(TCE), "same layout");
+  amc::construct_at(reinterpret_cast<ILE *>(dst), 1, 2);
+  return true;
+}
+
 template <class T>
 static void run(const Label &lb, FILE *out) {
   int n = lb.n;
@@ -325,7 +342,9 @@ static void run(const Label &lb, FILE *out) {
   bool copying = a == "uninitialized_copy" || a == "uninitialized_copy_n";
   g_budget = lb.k;
   try {
-    if (a == "construct_at") {
+    if (a == "construct_at_args") {
+      if (!constructArgs(dst)) o.unsupported = true;
+    } else if (a == "construct_at") {
       amc::construct_at(dst, static_cast<const T &>(src[0]));
     } else if (a == "destroy_at") {
       amc::destroy_at(src);
